@@ -43,7 +43,7 @@ FILMS = ["box64", "box33", "box81", "ellipse", "circle", "tee", "notched", "resa
 HOLES = ["none", "circle", "two", "box"]
 
 
-HISTORIES = ("remesh_finer", "remesh_coarser", "translated_inplace", "copy_translated", "translation_context", "terminal_resized", "terminals_replaced")
+HISTORIES = ("remesh_finer", "remesh_coarser", "translated_inplace", "copy_translated", "translation_context", "terminal_resized", "terminals_replaced", "smoothed_derived")
 
 
 def cases(tier, seed):
@@ -165,6 +165,14 @@ def run_case(case):
 
                 xs_ = dev.film.points[:, 0]
                 dev.terminals = (_tdgl.Polygon("left", points=_box(0.5, 0.6, center=(xs_.min(), -0.3))), _tdgl.Polygon("right", points=_box(0.5, 1.8, center=(xs_.max(), 0.1))))
+        if hist == "smoothed_derived":
+            # a smoothed mesh is derived from the device's mesh (Mesh.smooth returns a new mesh) and discarded
+            try:
+                _ = dev.mesh.smooth(3).areas.sum()
+            except ValueError as exc:
+                if "Malformed Voronoi cell" not in str(exc):
+                    raise
+                res.count("smoothing_refused")
         if hist == "translation_context":
             # moved and moved back by the documented context manager; a copy was taken while it was moved
             with dev.translation(1.7, -0.9):
